@@ -32,6 +32,7 @@ import (
 	"fmt"
 	"io"
 	"os"
+	"regexp"
 	"runtime/debug"
 	"sort"
 	"strings"
@@ -155,112 +156,129 @@ func c47ApplyTx(st trackerdb.Store, ops []c47Op) (results []string, err error) {
 		}
 		defer oaw.Close()
 		spw := tx.MakeSpVerificationCtxWriter()
-		// refs of accounts inserted in this transaction (the ledger passes them on the same way)
-		newRefs := map[basics.Address]trackerdb.AccountRef{}
-		refOf := func(a basics.Address) (trackerdb.AccountRef, error) {
-			if r, ok := newRefs[a]; ok {
-				return r, nil
-			}
-			pad, e := ar.LookupAccount(a)
-			return pad.Ref, e
-		}
 		ec := func(e error) string { return c47ErrClass(e) }
+		// Phase 1 - like the ledger's accountsLoadOld/resourcesLoadOld: every lookup of the
+		// transaction happens BEFORE its first write. (Inside a transaction SQLite sees its own
+		// writes while Pebble reads the snapshot taken at Begin; the ledger never relies on
+		// reading its own writes, so neither does this workload.)
+		type acctInfo struct {
+			ref trackerdb.AccountRef
+			err error
+			all []trackerdb.PersistedResourcesData
+		}
+		accts := map[basics.Address]*acctInfo{}
+		resExists := map[string]bool{}
+		resErr := map[string]error{}
+		crExists := map[string]bool{}
+		crErr := map[string]error{}
+		rk := func(o c47Op) string { return fmt.Sprintf("%x/%d", o.Addr, o.Cidx) }
+		ck := func(o c47Op) string { return fmt.Sprintf("%d/%d", o.Cidx, o.Ctype) }
+		for _, o := range ops {
+			switch o.Kind {
+			case "set-account", "del-account", "set-resource", "del-resource":
+				ai := accts[o.Addr]
+				if ai == nil {
+					pad, e := ar.LookupAccount(o.Addr)
+					ai = &acctInfo{ref: pad.Ref, err: e}
+					accts[o.Addr] = ai
+				}
+				if o.Kind == "del-account" && ai.err == nil && ai.ref != nil {
+					ai.all, _, ai.err = ar.LookupAllResources(o.Addr)
+				}
+				if (o.Kind == "set-resource" || o.Kind == "del-resource") && ai.err == nil && ai.ref != nil {
+					cur, e := ar.LookupResources(o.Addr, o.Cidx, o.Ctype)
+					resExists[rk(o)], resErr[rk(o)] = cur.AcctRef != nil, e
+				}
+			case "set-creatable", "del-creatable":
+				_, ok, _, e := ar.LookupCreator(o.Cidx, o.Ctype)
+				crExists[ck(o)], crErr[ck(o)] = ok, e
+			}
+		}
+		// Phase 2 - writes
 		for _, o := range ops {
 			var res string
 			switch o.Kind {
 			case "set-account":
-				ref, e := refOf(o.Addr)
+				ai := accts[o.Addr]
 				nb := o.Acct.NormalizedOnlineBalance(c47Proto.RewardUnit)
 				switch {
-				case e != nil:
-					res = "lookup:" + ec(e)
-				case ref == nil:
+				case ai.err != nil:
+					res = "lookup:" + ec(ai.err)
+				case ai.ref == nil:
 					r, e := aw.InsertAccount(o.Addr, nb, o.Acct)
 					if e == nil {
-						newRefs[o.Addr] = r
+						ai.ref = r // the ledger hands the new ref on to the resource writes the same way
 					}
 					res = fmt.Sprintf("insert refnil=%v %s", r == nil, ec(e))
 				default:
-					n, e := aw.UpdateAccount(ref, nb, o.Acct)
+					n, e := aw.UpdateAccount(ai.ref, nb, o.Acct)
 					res = fmt.Sprintf("update rows=%d %s", n, ec(e))
 				}
 			case "del-account":
-				ref, e := refOf(o.Addr)
+				ai := accts[o.Addr]
 				switch {
-				case e != nil:
-					res = "lookup:" + ec(e)
-				case ref == nil:
+				case ai.err != nil:
+					res = "lookup:" + ec(ai.err)
+				case ai.ref == nil:
 					res = "absent"
 				default:
 					// the ledger deletes an account only after its resources are gone
-					all, _, e := ar.LookupAllResources(o.Addr)
-					if e != nil {
-						res = "lookup-resources:" + ec(e)
-						break
-					}
-					for _, rr := range all {
-						n, e := aw.DeleteResource(ref, rr.Aidx)
+					for _, rr := range ai.all {
+						n, e := aw.DeleteResource(ai.ref, rr.Aidx)
 						res += fmt.Sprintf("delres(%d) rows=%d %s;", rr.Aidx, n, ec(e))
 					}
-					n, e := aw.DeleteAccount(ref)
+					n, e := aw.DeleteAccount(ai.ref)
 					res += fmt.Sprintf("delete rows=%d %s", n, ec(e))
+					ai.ref = nil
 				}
 			case "set-resource":
-				ref, e := refOf(o.Addr)
+				ai := accts[o.Addr]
 				switch {
-				case e != nil:
-					res = "lookup:" + ec(e)
-				case ref == nil:
+				case ai.err != nil:
+					res = "lookup:" + ec(ai.err)
+				case ai.ref == nil:
 					res = "no-account"
+				case resErr[rk(o)] != nil:
+					res = "lookup-res:" + ec(resErr[rk(o)])
+				case !resExists[rk(o)]:
+					r, e := aw.InsertResource(ai.ref, o.Cidx, o.Res)
+					res = fmt.Sprintf("insert refnil=%v %s", r == nil, ec(e))
 				default:
-					cur, e := ar.LookupResources(o.Addr, o.Cidx, o.Ctype)
-					if e != nil {
-						res = "lookup-res:" + ec(e)
-					} else if cur.AcctRef == nil {
-						r, e := aw.InsertResource(ref, o.Cidx, o.Res)
-						res = fmt.Sprintf("insert refnil=%v %s", r == nil, ec(e))
-					} else {
-						n, e := aw.UpdateResource(ref, o.Cidx, o.Res)
-						res = fmt.Sprintf("update rows=%d %s", n, ec(e))
-					}
+					n, e := aw.UpdateResource(ai.ref, o.Cidx, o.Res)
+					res = fmt.Sprintf("update rows=%d %s", n, ec(e))
 				}
 			case "del-resource":
-				ref, e := refOf(o.Addr)
+				ai := accts[o.Addr]
 				switch {
-				case e != nil:
-					res = "lookup:" + ec(e)
-				case ref == nil:
+				case ai.err != nil:
+					res = "lookup:" + ec(ai.err)
+				case ai.ref == nil:
 					res = "no-account"
+				case resErr[rk(o)] != nil:
+					res = "lookup-res:" + ec(resErr[rk(o)])
+				case !resExists[rk(o)]:
+					res = "absent"
 				default:
-					cur, e := ar.LookupResources(o.Addr, o.Cidx, o.Ctype)
-					if e != nil {
-						res = "lookup-res:" + ec(e)
-					} else if cur.AcctRef == nil {
-						res = "absent"
-					} else {
-						n, e := aw.DeleteResource(ref, o.Cidx)
-						res = fmt.Sprintf("delete rows=%d %s", n, ec(e))
-					}
+					n, e := aw.DeleteResource(ai.ref, o.Cidx)
+					res = fmt.Sprintf("delete rows=%d %s", n, ec(e))
 				}
 			case "set-kv":
 				res = "upsert " + ec(aw.UpsertKvPair(o.Key, o.Value))
 			case "del-kv":
 				res = "delete " + ec(aw.DeleteKvPair(o.Key))
 			case "set-creatable":
-				_, ok, _, e := ar.LookupCreator(o.Cidx, o.Ctype)
-				if e != nil {
+				if e := crErr[ck(o)]; e != nil {
 					res = "lookup:" + ec(e)
-				} else if ok {
+				} else if crExists[ck(o)] {
 					res = "present"
 				} else {
 					r, e := aw.InsertCreatable(o.Cidx, o.Ctype, o.Addr[:])
 					res = fmt.Sprintf("insert refnil=%v %s", r == nil, ec(e))
 				}
 			case "del-creatable":
-				_, ok, _, e := ar.LookupCreator(o.Cidx, o.Ctype)
-				if e != nil {
+				if e := crErr[ck(o)]; e != nil {
 					res = "lookup:" + ec(e)
-				} else if !ok {
+				} else if !crExists[ck(o)] {
 					res = "absent"
 				} else {
 					n, e := aw.DeleteCreatable(o.Cidx, o.Ctype)
@@ -603,7 +621,7 @@ func (w *c47World) genBatch(r *kit.Rand) []c47Op {
 	if r.Chance(2, 3) {
 		// forget-before never reaches into the rounds being committed (ledger: newBase - lookback)
 		fb := basics.Round(r.Intn(int(w.round) + 1))
-		if r.Chance(1, 2) && len(w.onlineR) > 0 { // exactly an existing update round
+		if r.Chance(1, 4) && len(w.onlineR) > 0 { // exactly an existing update round
 			for _, a := range w.addrs {
 				if ur, ok := w.onlineR[a]; ok && ur <= w.round {
 					fb = ur
@@ -854,9 +872,16 @@ func (w *c47World) genQueries(r *kit.Rand, n int) []c47Query {
 					pre[w.kvKeys[r.Intn(len(w.kvKeys))]] = r.Bool()
 				}
 			}
-			cnt := uint64(len(pre))
-			if cnt > max {
-				max = cnt + uint64(r.Intn(3))
+			// contract (acctupdates.lookupKeysByPrefix): resultCount counts the VALID (true) entries of
+			// the map and the database is only asked while resultCount < maxKeyNum
+			cnt := uint64(0)
+			for _, v := range pre {
+				if v {
+					cnt++
+				}
+			}
+			if max <= cnt {
+				max = cnt + uint64(r.Range(1, 3))
 			}
 			add("LookupKeysByPrefix", fmt.Sprintf("prefix=%x,max=%d,pre=%v", p, max, pre), func(e *c47Env) (any, error) {
 				m := map[string]bool{}
@@ -1109,6 +1134,9 @@ func (w *c47World) somePrefix1(r *kit.Rand) string {
 
 var c47Opt = kit.FPOptions{NilEqualsEmpty: true}
 
+// the db-round field of PersistedOnlineAccountData in a description ("...;Round=7;UpdRound=3;")
+var c47RoundRe = regexp.MustCompile(`Round=\d+;UpdRound`)
+
 // c47Call runs a query against one env, turning "unimplemented" panics into a marker.
 func c47Call(q c47Query, e *c47Env) (desc string, errClass string, unimpl bool, errText string) {
 	defer func() {
@@ -1288,6 +1316,45 @@ func c47RunCase(c *kit.Ctx, caseIdx uint64, count bool, nilEmpty map[string]int)
 				c.Count("batches", 1)
 			}
 		}
+		// state check: the online-accounts table as a whole (address, update round, data). If the
+		// tables differ the batch had different EFFECTS on the two stores; everything read later
+		// would only be a consequence, so the case ends here with the effect as the finding.
+		if b > 0 {
+			dump := func(s trackerdb.Store) (string, error) {
+				arx, err := s.MakeAccountsReader()
+				if err != nil {
+					return "", err
+				}
+				all, err := arx.OnlineAccountsAll(0)
+				if err != nil {
+					return "", err
+				}
+				var sb strings.Builder
+				for _, x := range all {
+					fmt.Fprintf(&sb, "%s@%d offline=%v algos=%d voteLast=%d\n", c47A(x.Addr), x.UpdRound, x.AccountData.IsVotingEmpty(), x.AccountData.MicroAlgos.Raw, x.AccountData.VoteLastValid)
+				}
+				return sb.String(), nil
+			}
+			ds, es := dump(st.sql)
+			dk, ek := dump(st.kv)
+			if es != nil || ek != nil {
+				return append(found, mk("write-effect:online-accounts-table:error", fmt.Sprintf("OnlineAccountsAll(0) failed: sqlite=%v pebble=%v", es, ek), nil))
+			}
+			if count {
+				c.Eval(1)
+				c.Count("online_table_state_checks", 1)
+			}
+			if ds != dk {
+				var dels []string
+				for k := len(trace) - 1; k >= 0 && !strings.HasPrefix(trace[k], "COMMIT") || k == len(trace)-1; k-- {
+					if strings.HasPrefix(trace[k], "online") {
+						dels = append(dels, trace[k])
+					}
+				}
+				return append(found, mk("write-effect:online-accounts-table", fmt.Sprintf("after batch %d (db round %d) the online-accounts tables differ; online ops of the last transaction: %v", b, w.round, dels),
+					map[string]any{"sqlite_rows(addr@updround)": strings.Split(ds, "\n"), "pebble_rows(addr@updround)": strings.Split(dk, "\n")}))
+			}
+		}
 		// queries
 		qs := w.genQueries(r, r.Range(25, 60))
 		useSnapshot := r.Bool()
@@ -1366,6 +1433,12 @@ func c47RunCase(c *kit.Ctx, caseIdx uint64, count bool, nilEmpty map[string]int)
 				cls := as[i].ec + "/" + ak[i].ec
 				if as[i].ec == "ok" && ak[i].ec == "ok" {
 					cls = "values"
+					if q.Method == "LookupKeysByPrefixCursor" && strings.ReplaceAll(as[i].desc, "ValueIsNil=true;Value=[]", "ValueIsNil=false;Value=x''") == strings.ReplaceAll(ak[i].desc, "ValueIsNil=true;Value=[]", "ValueIsNil=false;Value=x''") {
+						cls = "empty-value-nil-vs-empty"
+					}
+					if q.Method == "OnlineAccountsAll" && c47RoundRe.ReplaceAllString(as[i].desc, "Round=*;UpdRound") == c47RoundRe.ReplaceAllString(ak[i].desc, "Round=*;UpdRound") {
+						cls = "round-field-only"
+					}
 				}
 				key := "diff:" + q.Method + ":" + cls
 				if !seenKeys[key] {
@@ -1438,7 +1511,9 @@ func c47Trunc(s string) string {
 func TestVerifC47Store(t *testing.T) {
 	c := kit.Start(t, "C47", "store")
 	defer c.Finish()
-	logging.Base().SetOutput(io.Discard)
+	if os.Getenv("VERIF_C47_DEBUG") == "" {
+		logging.Base().SetOutput(io.Discard)
+	}
 	c.Rule("per case a SQLite and a Pebble tracker store (in memory or on disk, optionally with genesis accounts through each backend's migration) receive 2-14 commit-like write batches drawn from small pools with clustered addresses / creatable indices / box keys (accounts, asset and app resources, kv incl. empty values, creatables, online-account rows incl. offline rows and equal balances, OnlineAccountsDelete incl. forget-before equal to an update round, round params + pruning, tx tail + forgetting, totals, state-proof contexts, round), as one transaction or several, directly on each store (per-op results compared) or through the production dualdriver; after the genesis state and after every batch 25-60 queries over every reader method (point lookups, absent keys, prefix listings with pre-filled maps and limits, cursor pagination with byte limits/exclusions, online top/expired/history, tx tail, round params, state proofs) run on both stores through store-level readers or snapshots and are compared after normalising refs; a case stops at its first divergence; distinct = (method, answer class, answer size bucket)")
 	c.Assume("workload restricted to the ledger's usage contract (see file header); results are compared after replacing opaque refs by their nil-ness; nil and empty lists are equal; error texts are not compared")
 	c.Assume("methods without a key-value implementation (TODO stubs returning zero values, 'not supported', 'unimplemented' panics) are counted under not_compared:<method>, not judged")
@@ -1461,6 +1536,13 @@ func TestVerifC47Store(t *testing.T) {
 		} else {
 			c.Count("cases_without_divergence", 1)
 		}
+		if i < 4 {
+			var ks []string
+			for _, f := range fs {
+				ks = append(ks, f.key)
+			}
+			c.Sample(map[string]any{"case": i, "divergences": ks})
+		}
 		for _, f := range fs {
 			perKey[f.key]++
 			if perKey[f.key] <= 2 {
@@ -1468,6 +1550,7 @@ func TestVerifC47Store(t *testing.T) {
 			}
 		}
 	}
+	c.Observation("inside one transaction the SQLite store sees its own writes while the Pebble store reads the snapshot taken at Begin (transactionScope.Get/NewIter use the snapshot, writes go to a batch); the ledger loads old state before writing, and so does this workload, so this is not judged")
 	for m, n := range nilEmpty {
 		c.Observation("dualdriver returned ErrInconsistentResult for %s in %d cases where the two answers differ only in nil vs empty list (it compares with cmp.Equal); not a different answer for callers, not reported as a violation", m, n)
 	}
